@@ -95,11 +95,14 @@ def norm_events(events):
     return out
 
 
+SETUP_EVS = ("reset", "index", "breset", "bindex")
+
+
 def split_cases(events):
     """-> (header events before the first reset, list of cases (lists of events starting with reset))"""
     header, cases = [], []
     for e in events:
-        if e["ev"] == "reset":
+        if e["ev"] in ("reset", "breset"):
             cases.append([e])
         elif cases:
             cases[-1].append(e)
@@ -133,9 +136,41 @@ def kinds(q, acc):
     return acc
 
 
+def has_dismax(t):
+    return t["k"] == "dismax" or any(has_dismax(a) for a in t.get("args", []))
+
+
+def account_big(ctx, case, stats):
+    """coverage bookkeeping of one accepted big case"""
+    reset = case[0]
+    base = json.dumps([reset["shapes"], reset["pattern"], reset["nd"], reset["cuts"]], sort_keys=True)
+    stats["big_cases"] += 1
+    for e in case:
+        if e["ev"] == "bindex":
+            stats["big_largest_segment"] = max([stats["big_largest_segment"]] + [sg["max_doc"] for sg in e["segs"]])
+            stats["big_segments_over_4096"] += sum(1 for sg in e["segs"] if sg["max_doc"] > 4096)
+        if e["ev"] != "bquery":
+            continue
+        ctx.distinct(base + json.dumps(e["q"], sort_keys=True), nontrivial=e["nhits"] > 0)
+        stats["big_queries"] += 1
+        stats["big_matching_documents"] += e["nhits"]
+        stats["big_sampled_hits"] += len(e["hits"])
+        stats["big_score_histograms"] += 2 * len(e["groups"])
+        for h in e["hits"]:
+            for key in ("coll", "kernel", "expl", "top"):
+                if key in h and int(h[key]["b"]) != bits(h[key]):
+                    raise vlib.ToolError("harness: score words and decimal bit string disagree")
+            if h["local"] >= 4096:
+                stats["big_sampled_hits_beyond_first_window"] += 1
+                if has_dismax(h["term"]):
+                    stats["big_dismax_hits_beyond_first_window"] += 1
+
+
 def account(ctx, case, stats):
     """coverage bookkeeping of one accepted case (nothing here is a verdict)"""
     reset = case[0]
+    if reset["ev"] == "breset":
+        return account_big(ctx, case, stats)
     base = json.dumps([reset["docs"], reset["cuts"], reset["dels"]], sort_keys=True)
     table = stats.get("_table")
     for e in case:
@@ -231,12 +266,12 @@ def validate(ctx, events, label, cfg=None, stats=None, max_rounds=10):
             reported.add(key)
             # replay = table + the case's reset / index events + the offending event
             rp = ctx.path(f"{label}.rejected.{key.split(':')[0]}{'.strict' if cfg == CFG_STRICT else ''}.ndjson")
-            vlib.write_ndjson(rp, header + [e for e in case if e["ev"] in ("reset", "index")] + ([ev] if ev["ev"] not in ("reset", "index") else []))
+            vlib.write_ndjson(rp, header + [e for e in case if e["ev"] in SETUP_EVS] + ([ev] if ev["ev"] not in SETUP_EVS else []))
             outp = ctx.path(f"{label}.rejected.{key.split(':')[0]}.tlc.out")
             open(outp, "w").write(r.out[-20000:])
             detail = f"why: {why}\ncase: {json.dumps(case[0])[:1500]}\nevent (line {line}): {json.dumps(ev)[:2500]}"
             ctx.violation(text, [rp, outp], detail)
-        if ev["ev"] in ("query", "panic", "error") and ev is not case[0]:
+        if ev["ev"] in ("query", "bquery", "panic", "error") and ev is not case[0]:
             cases[ci] = [e for e in case if e is not ev]
             dirty.add(id(cases[ci]))
             dirty.discard(id(case))
@@ -436,6 +471,108 @@ def merge_cases(ctx, stats):
     log(f"[merge] {len(cases)} fixed merge cases, {ctx.cov['traces_validated_against_impl'] - before} accepted")
 
 
+BIG_SHAPES = [{"toks": ["a", "b"], "pad": 0}, {"toks": ["a", "a", "b", "c"], "pad": 3}, {"toks": ["c"], "pad": 0}, {"toks": [], "pad": 2},
+              {"toks": ["b", "b", "a"], "pad": 45}, {"toks": ["b", "c", "b"], "pad": 0}, {"toks": ["a", "b", "c", "a", "b"], "pad": 11},
+              {"toks": ["a"], "pad": 1}, {"toks": ["c", "a", "b"], "pad": 101}]
+
+
+def big_queries(rng):
+    """dis-max with tie breaker in {0.3, 0.5, 1.0} over 2..3 disjuncts, alone and nested under should / must / boost, plus controls"""
+    w = lambda: rng.choice(["a", "b", "c"])
+    tie = lambda: rng.choice([0.3, 0.5, 1.0])
+    two = lambda: rng.sample(["a", "b", "c"], 2)
+    x, y = two()
+    qs = [{"k": "dismax", "tie": tie(), "qs": [T(x), T(y)]},
+          {"k": "dismax", "tie": tie(), "qs": [T("a"), T("b"), T("c")]},
+          {"k": "dismax", "tie": tie(), "qs": [T(w()), P("a", "b")]},
+          {"k": "bool", "cl": [{"o": "should", "q": {"k": "dismax", "tie": tie(), "qs": [T(a_) for a_ in two()]}}, {"o": "should", "q": T(w())}]},
+          {"k": "bool", "cl": [{"o": "must", "q": {"k": "dismax", "tie": tie(), "qs": [T(a_) for a_ in two()]}}, {"o": "must", "q": T(w())}]},
+          {"k": "bool", "cl": [{"o": "must", "q": T(w())}, {"o": "should", "q": {"k": "dismax", "tie": tie(), "qs": [T("a"), T("b"), P("b", "c")]}}]},
+          {"k": "boost", "b": rng.choice(BOOSTS), "q": {"k": "dismax", "tie": tie(), "qs": [T(x), {"k": "const", "c": 0.42, "q": T(y)}]}},
+          {"k": "dismax", "tie": tie(), "qs": [{"k": "bool", "cl": [{"o": "should", "q": T("a")}, {"o": "should", "q": T("c")}]}, T("b")]},
+          {"k": "bool", "cl": [{"o": "should", "q": T("a")}, {"o": "should", "q": T("b")}, {"o": "should", "q": T("c")}]},
+          {"k": "bool", "cl": [{"o": "must", "q": T(x)}, {"o": "mustnot", "q": T(y)}]},
+          P("a", "b"), T(w())]
+    return qs
+
+
+def big_cases(ctx, n, stats):
+    """segments of more than 4096 small documents built from a few repeated shapes: identical documents exist before and after
+    every 4096-document boundary (BufferedUnionScorer's window), documents are reached by far seeks (explain)"""
+    rng = random.Random(ctx.seed * 7919 + 13)
+    cases = []
+    for i in range(n):
+        k = rng.randint(3, 5)
+        shapes = rng.sample(BIG_SHAPES, k)
+        pattern = [rng.randint(1, k) for _ in range(rng.randint(3, 7))]
+        for s in range(1, k + 1):           # every shape occurs
+            if s not in pattern:
+                pattern.append(s)
+        nd = rng.randint(4500, 9000)
+        r = rng.random()
+        cuts = [nd] if r < 0.4 else ([rng.randint(4200, nd - 100), 0] if r < 0.8 else [rng.randint(50, 300), 0])
+        if len(cuts) == 2:
+            cuts[1] = nd - cuts[0]
+        qs = big_queries(rng)
+        qs = qs[:3] + rng.sample(qs[3:], 5) if ctx.quick else qs
+        cases.append({"big": True, "tag": f"big-{i}", "filler": "z", "vocab": ["a", "b", "c"], "shapes": shapes, "pattern": pattern,
+                      "nd": nd, "cuts": cuts, "queries": qs})
+    cp = ctx.path("big.cases.ndjson")
+    vlib.write_ndjson(cp, cases)
+    tp = ctx.path("big.trace.ndjson")
+    vlib.run_bin("bm25_driver", ["replay", "--in", cp, "--out", tp], timeout=300)
+    ev = vlib.read_ndjson(tp)
+    before = ctx.cov["traces_validated_against_impl"]
+    validate(ctx, ev, "big", stats=stats)
+    log(f"[big] {len(cases)} big cases (4500..9000 documents), {ctx.cov['traces_validated_against_impl'] - before} accepted")
+    ctx.sample({"kind": "big case (document i has shape pattern[(i-1) mod p])", "case": {k: v for k, v in cases[0].items() if k != "queries"},
+                "queries": cases[0]["queries"][:3]})
+    return ev
+
+
+def big_selftest(ctx, events, results):
+    """corruptions of an accepted big trace that TLC must reject"""
+    header, cases = split_cases(norm_events(events))
+    case = next((c for c in cases if c[0]["ev"] == "breset" and all(e["ev"] in ("breset", "bindex", "bquery") for e in c)
+                 and any(e["ev"] == "bquery" and e["groups"] and any(h["local"] >= 4096 for h in e["hits"]) for e in c)), None)
+    if case is None:
+        if ctx.violations:
+            return
+        raise vlib.ToolError("binding self-test: no suitable accepted big case")
+    base = header + case
+
+    def bq(tr):
+        return next(e for e in tr if e["ev"] == "bquery" and e["groups"] and any(h["local"] >= 4096 for h in e["hits"]))
+
+    def m_histogram_split(tr):
+        g = bq(tr)["groups"][0]
+        g["coll"][0]["n"] -= 1
+        g["coll"].append({"hi": g["coll"][0]["hi"], "lo": g["coll"][0]["lo"] ^ 1, "n": 1})
+
+    def m_nhits(tr):
+        bq(tr)["nhits"] += 1
+
+    def m_far_hit_explain(tr):
+        next(h for h in bq(tr)["hits"] if h["local"] >= 4096)["expl"]["hi"] += 1
+
+    def m_far_hit_score(tr):
+        h = next(h for h in bq(tr)["hits"] if h["local"] >= 4096)
+        h["coll"]["hi"] += 1
+
+    def m_big_tokens(tr):
+        next(e for e in tr if e["ev"] == "bindex")["segs"][0]["T"] += 1
+
+    for name, mut in (("big_histogram_second_score", m_histogram_split), ("big_match_count_changed", m_nhits),
+                      ("big_far_hit_explain_changed", m_far_hit_explain), ("big_far_hit_score_changed", m_far_hit_score),
+                      ("big_segment_total_tokens_changed", m_big_tokens)):
+        tr = json.loads(json.dumps(base))
+        mut(tr)
+        p = ctx.path(f"selftest_{name}.ndjson")
+        vlib.write_ndjson(p, tr)
+        r = vlib.run_tlc(MODULE, DEFAULT_CFG, workers=1, timeout=120, trace=p, deque=True, heap="2g")
+        results[name] = "rejected" if (not r.ok and rejected_line(r) is not None) else "ACCEPTED"
+
+
 def known_finding_runs(ctx, stats):
     reproduced = {}
     regress = []
@@ -469,7 +606,7 @@ def known_finding_runs(ctx, stats):
 # ---------------------------------------------------------------------------------------------
 # binding self-test
 # ---------------------------------------------------------------------------------------------
-def binding_selftest(ctx, events):
+def binding_selftest(ctx, events, big_events=None):
     """corrupt one logged field of an accepted trace: TLC must reject every variant"""
     header, cases = split_cases(norm_events(events))
     picked = []
@@ -581,6 +718,8 @@ def binding_selftest(ctx, events):
         vlib.write_ndjson(p, tr)
         r = vlib.run_tlc(MODULE, DEFAULT_CFG, workers=1, timeout=120, trace=p, deque=True, heap="2g")
         results[name] = "rejected" if (not r.ok and rejected_line(r) is not None) else "ACCEPTED"
+    if big_events is not None:
+        big_selftest(ctx, big_events, results)
     ctx.cov["binding_selftest"] = results
     bad = [k for k, v in results.items() if v != "rejected"]
     if bad:
@@ -593,6 +732,9 @@ def new_stats():
             "topdocs_scores_compared": 0, "segmentation_compared": 0, "cases_with_several_segments": 0,
             "merges": 0, "merges_by_number_of_segments": {}, "merges_leaving_other_segments": 0, "merges_after_deletes": 0,
             "merges_exact_T_with_non_table_lengths": 0, "merged_evaluations": 0, "merged_hits": 0,
+            "big_cases": 0, "big_queries": 0, "big_largest_segment": 0, "big_segments_over_4096": 0, "big_matching_documents": 0,
+            "big_sampled_hits": 0, "big_score_histograms": 0, "big_sampled_hits_beyond_first_window": 0,
+            "big_dismax_hits_beyond_first_window": 0,
             "cases_with_deleted_documents": 0, "fnids": set()}
 
 
@@ -628,14 +770,17 @@ def run(ctx):
         random_cases(ctx, 600, ctx.seed + 1000, stats, label="rand2")
         random_cases(ctx, 80, ctx.seed + 2000, stats, label="rand_big", extra=["--bigpads"])
     merge_cases(ctx, stats)
+    ev_big = big_cases(ctx, 4 if ctx.quick else 40, stats)
     known_finding_runs(ctx, stats)
-    binding_selftest(ctx, ev)
+    binding_selftest(ctx, ev, ev_big)
     stats.pop("_table", None)
     stats["fieldnorm_ids_covered"] = len(stats["fnids"])
     stats["fnids"] = sorted(stats["fnids"])
     ctx.cov["observations"] = stats
     if stats["topdocs_scores_compared"] == 0 or stats["explain_compared"] == 0 or stats["hits_multi_clause"] == 0:
         raise vlib.ToolError("an observation path was never compared (TopDocs / explain / several clauses)")
+    if not stats["big_dismax_hits_beyond_first_window"] or not stats["big_segments_over_4096"]:
+        raise vlib.ToolError("big family: no dis-max hit beyond the first 4096-document window was observed")
     by_n = stats["merges_by_number_of_segments"]
     if not all(by_n.get(k) for k in ("2", "3", "4")) or not stats["merges_after_deletes"] or not stats["merges_leaving_other_segments"] \
             or not stats["merges_exact_T_with_non_table_lengths"]:
